@@ -107,7 +107,8 @@ def check(run, prog):
               terms_by_mode[False], terms_by_mode[True])
 
     # ------------------------------------------------------------------ R2 / R3 on signals
-    scen = [("numpy", 2, "bottom", None, True), ("dask", 3, "center", fr_, True)]
+    # (the third scenario dedisperses to infinite frequency: every rule below holds with 1/f_ref = 0)
+    scen = [("numpy", 2, "bottom", None, True), ("dask", 3, "center", fr_, True), ("numpy", 4, "top", sp.oo, True)]
     if run.tier == "thorough":
         scen += [("numpy", 3, "center", fr_, False), ("dask", 2, "top", None, True), ("numpy", 1, "center", None, True)]
     # RF: the reference frequency in its accepted forms ("at infinite frequency" is written np.inf as often as np.inf * u.MHz)
@@ -118,7 +119,7 @@ def check(run, prog):
                  [("inf * u.Hz", Num(sp.oo * Hz, kind="quantity")), ("bare inf", Num(sp.oo))],
                  "an infinite reference frequency means the same whether or not it carries a unit")
     for backend, nchan, al, ref, has_t in scen:
-        tag = f"[{backend}, nchan={nchan}, {al}, ref={'center_freq' if ref is None else 'free'}{'' if has_t else ', no start_time'}]"
+        tag = f"[{backend}, nchan={nchan}, {al}, ref={'center_freq' if ref is None else ('infinite' if ref == sp.oo else 'free')}{'' if has_t else ', no start_time'}]"
         extra = (sp.Integer(2),) if nchan == 2 else ()
         clsname = "DualPolarizationSignal" if extra else "BasebandSignal"
         z = make_signal(prog, clsname, nchan=nchan, freq_align=al, start_time=has_t, backend=backend)
